@@ -2188,7 +2188,10 @@ def layout_variant(rng, patch, file_words=None):
         for n in sorted(set(names)):
             new = pool.pop() if pool and rng.random() < 0.5 else ("q" + n + "z")
             meta = [WORD(n).sub(new, l) for l in meta]
-            body = [WORD(n).sub(new, l) for l in body]
+            # a metavariable is in scope in its own change only: what follows the next header belongs to another
+            # change, where the same word is ordinary code (false alarm of sweep seed 85)
+            stop = next((k for k, l in enumerate(body) if l.startswith("@")), len(body))
+            body = [WORD(n).sub(new, l) if k < stop and not l.startswith("#") else l for k, l in enumerate(body)]
         if names:
             done.append("rename-metavariables")
     elif t == 4:    # regroup / reorder declarations
